@@ -672,14 +672,15 @@ Proof.
   inversion Fx; subst. apply andb_true_iff. split; [apply Nat.ltb_lt; assumption|apply IH; exact St].
 Qed.
 
-Lemma copy_rows_concat rows : forall acc pre,
+Lemma run_copies_concat rows : forall acc pre,
   length pre = acc ->
-  copy_rows (pre ++ repeat 0 (length (concat rows))) acc (prefix_sums acc (map (@length nat) rows)) rows
+  run_copies (pre ++ repeat 0 (length (concat rows)))
+             (copy_tasks acc (prefix_sums acc (map (@length nat) rows)) rows)
   = Ok (pre ++ concat rows).
 Proof.
   induction rows as [|r t IH]; intros acc pre Hp.
   - cbn. reflexivity.
-  - cbn [map prefix_sums concat copy_rows]. unfold copy_row.
+  - cbn [map prefix_sums concat copy_tasks run_copies]. unfold copy_row.
     rewrite !app_length, repeat_length.
     destruct (Nat.ltb_spec (acc + length r) acc) as [H|_]; [lia|].
     destruct (Nat.ltb_spec (length pre + (length r + length (concat t))) (acc + length r)) as [H|_]; [lia|].
@@ -697,6 +698,123 @@ Proof.
     rewrite <- !app_assoc in IH. subst acc. exact IH.
 Qed.
 
+(* --- the copies may be performed in any order: pointwise description of the result --- *)
+Definition t_in (t : copy_task) (k : nat) : Prop := fst (fst t) <= k < snd (fst t).
+Definition t_val (t : copy_task) (k : nat) : nat := nth (k - fst (fst t)) (snd t) 0.
+Definition t_ok (total : nat) (t : copy_task) : Prop :=
+  fst (fst t) <= snd (fst t) <= total /\ snd (fst t) - fst (fst t) = length (snd t).
+Definition t_disjoint (ts : list copy_task) : Prop :=
+  forall t1 t2, In t1 ts -> In t2 ts -> forall k, t_in t1 k -> t_in t2 k -> t1 = t2.
+
+Lemma t_in_dec t k : {t_in t k} + {~ t_in t k}.
+Proof.
+  unfold t_in. destruct (le_dec (fst (fst t)) k); destruct (lt_dec k (snd (fst t))); [left|right|right|right]; lia.
+Qed.
+
+Lemma nth_firstn {A} (l : list A) : forall n k d, k < n -> nth k (firstn n l) d = nth k l d.
+Proof.
+  induction l as [|x t IH]; intros [|n] [|k] d H; cbn; try lia; try reflexivity.
+  apply IH. lia.
+Qed.
+
+Lemma nth_skipn {A} (l : list A) : forall n k d, nth k (skipn n l) d = nth (n + k) l d.
+Proof.
+  induction l as [|x t IH]; intros [|n] k d; cbn [skipn Nat.add]; try reflexivity.
+  - destruct k; reflexivity.
+  - cbn [nth]. apply IH.
+Qed.
+
+Lemma copy_row_spec I a b r : a <= b <= length I -> b - a = length r ->
+  exists I', copy_row I a b r = Ok I' /\ length I' = length I /\
+    forall k, nth k I' 0 = if (a <=? k) && (k <? b) then nth (k - a) r 0 else nth k I 0.
+Proof.
+  intros Hab Hr. unfold copy_row.
+  destruct (Nat.ltb_spec b a) as [H|_]; [lia|].
+  destruct (Nat.ltb_spec (length I) b) as [H|_]; [lia|]. cbn [orb].
+  eexists. split; [reflexivity|]. rewrite (firstn_all2 r) by lia.
+  assert (La : length (firstn a I) = a) by (apply firstn_length_le; lia).
+  split.
+  - rewrite !app_length, La, skipn_length. lia.
+  - intros k. destruct (Nat.leb_spec a k) as [Hak|Hak]; cbn [andb].
+    + rewrite app_nth2 by lia. rewrite La.
+      destruct (Nat.ltb_spec k b) as [Hkb|Hkb].
+      * rewrite app_nth1 by lia. reflexivity.
+      * rewrite app_nth2 by lia. rewrite nth_skipn. f_equal. lia.
+    + rewrite app_nth1 by lia. apply nth_firstn. exact Hak.
+Qed.
+
+Lemma run_copies_spec ts : forall I,
+  Forall (t_ok (length I)) ts -> t_disjoint ts ->
+  exists I', run_copies I ts = Ok I' /\ length I' = length I /\
+    forall k, (forall t, In t ts -> t_in t k -> nth k I' 0 = t_val t k)
+              /\ ((forall t, In t ts -> ~ t_in t k) -> nth k I' 0 = nth k I 0).
+Proof.
+  induction ts as [|[[a b] r] ts IH]; intros I Hok Hdis.
+  - exists I. split; [reflexivity|]. split; [reflexivity|]. intros k. split; [intros t []|reflexivity].
+  - inversion Hok as [|? ? H0 Hrest]; subst. destruct H0 as [Hab Hr]. cbn [fst snd] in Hab, Hr.
+    destruct (copy_row_spec I a b r Hab Hr) as (I1 & E1 & L1 & N1).
+    cbn [run_copies]. rewrite E1. cbn [bind].
+    destruct (IH I1) as (I' & E' & L' & N').
+    { rewrite L1. exact Hrest. }
+    { intros t1 t2 H1 H2. apply Hdis; right; assumption. }
+    exists I'. split; [exact E'|]. split; [lia|]. intros k. destruct (N' k) as [Nin Nout].
+    assert (Hhead : t_in (a, b, r) k -> nth k I1 0 = t_val (a, b, r) k).
+    { unfold t_in, t_val. cbn [fst snd]. intros [H1 H2]. rewrite N1.
+      destruct (Nat.leb_spec a k); [|lia]. destruct (Nat.ltb_spec k b); [|lia]. reflexivity. }
+    assert (Hnothead : ~ t_in (a, b, r) k -> nth k I1 0 = nth k I 0).
+    { unfold t_in. cbn [fst snd]. intros Hn. rewrite N1.
+      destruct (Nat.leb_spec a k); destruct (Nat.ltb_spec k b); cbn [andb]; try reflexivity. lia. }
+    destruct (Exists_dec (fun t => t_in t k) ts (fun t => t_in_dec t k)) as [Hex|Hnex].
+    + apply Exists_exists in Hex as (t0 & Ht0 & Hin0). split.
+      * intros t [<-|Ht] Hin; [|apply Nin; assumption].
+        rewrite (Hdis (a, b, r) t0 (or_introl eq_refl) (or_intror Ht0) k Hin Hin0). apply Nin; assumption.
+      * intros Hnone. exfalso. apply (Hnone t0 (or_intror Ht0) Hin0).
+    + assert (Hnone : forall t, In t ts -> ~ t_in t k).
+      { intros t Ht Hin. apply Hnex. apply Exists_exists. eauto. }
+      rewrite (Nout Hnone). split.
+      * intros t [<-|Ht] Hin; [apply Hhead; exact Hin|exfalso; apply (Hnone t Ht Hin)].
+      * intros Hn. apply Hnothead. apply Hn. left; reflexivity.
+Qed.
+
+Lemma run_copies_perm ts ts' I : Permutation ts ts' ->
+  Forall (t_ok (length I)) ts -> t_disjoint ts -> run_copies I ts' = run_copies I ts.
+Proof.
+  intros HP Hok Hdis.
+  assert (Hok' : Forall (t_ok (length I)) ts').
+  { rewrite Forall_forall in *. intros t Ht. apply Hok. apply (Permutation_in _ (Permutation_sym HP) Ht). }
+  assert (Hdis' : t_disjoint ts').
+  { intros t1 t2 H1 H2. apply Hdis; apply (Permutation_in _ (Permutation_sym HP)); assumption. }
+  destruct (run_copies_spec ts I Hok Hdis) as (I1 & E1 & L1 & N1).
+  destruct (run_copies_spec ts' I Hok' Hdis') as (I2 & E2 & L2 & N2).
+  rewrite E1, E2. f_equal. apply (nth_ext _ _ 0 0); [lia|]. intros k _.
+  destruct (N1 k) as [A1 B1]. destruct (N2 k) as [A2 B2].
+  destruct (Exists_dec (fun t => t_in t k) ts (fun t => t_in_dec t k)) as [Hex|Hnex].
+  - apply Exists_exists in Hex as (t0 & Ht0 & Hin0).
+    rewrite (A1 t0 Ht0 Hin0). apply A2; [apply (Permutation_in _ HP Ht0)|exact Hin0].
+  - assert (Hnone : forall t, In t ts -> ~ t_in t k).
+    { intros t Ht Hin. apply Hnex. apply Exists_exists. eauto. }
+    rewrite (B1 Hnone). apply B2. intros t Ht. apply Hnone. apply (Permutation_in _ (Permutation_sym HP) Ht).
+Qed.
+
+(* the tasks built from the prefix sums are in bounds and pairwise disjoint *)
+Lemma copy_tasks_ok rows : forall acc total,
+  acc + length (concat rows) <= total ->
+  let ts := copy_tasks acc (prefix_sums acc (map (@length nat) rows)) rows in
+  Forall (t_ok total) ts /\ (forall t, In t ts -> acc <= fst (fst t)) /\ t_disjoint ts.
+Proof.
+  induction rows as [|r rs IH]; intros acc total Hle.
+  - cbn. split; [constructor|]. split; [intros t []|intros t1 t2 []].
+  - cbn [map prefix_sums copy_tasks concat] in *. rewrite app_length in Hle.
+    destruct (IH (acc + length r) total ltac:(lia)) as (Hok & Hlow & Hdis).
+    split; [|split].
+    + constructor; [|exact Hok]. unfold t_ok. cbn [fst snd]. lia.
+    + intros t [<-|Ht]; [cbn; lia|]. specialize (Hlow t Ht). lia.
+    + intros t1 t2 [<-|H1] [<-|H2] k K1 K2; try reflexivity.
+      * exfalso. specialize (Hlow t2 H2). unfold t_in in *. cbn [fst snd] in *. lia.
+      * exfalso. specialize (Hlow t1 H1). unfold t_in in *. cbn [fst snd] in *. lia.
+      * apply (Hdis t1 t2 H1 H2 k K1 K2).
+Qed.
+
 Lemma last_prefix_sums l : forall acc, last (acc :: prefix_sums acc l) 0 = acc + fold_right Nat.add 0 l.
 Proof.
   induction l as [|x t IH]; intros acc; [cbn; lia|].
@@ -708,17 +826,23 @@ Lemma length_concat (rows : list (list nat)) :
   length (concat rows) = fold_right Nat.add 0 (map (@length nat) rows).
 Proof. induction rows as [|r t IH]; [reflexivity|]. cbn [concat map fold_right]. rewrite app_length, IH. reflexivity. Qed.
 
-Lemma assemble_spec rows :
+Lemma assemble_sched_spec sched rows :
+  (forall ts, Permutation ts (sched ts)) ->
   (forall r, In r rows -> StronglySorted lt r /\ forall x, In x r -> x < length rows) ->
-  assemble rows = Ok (mkCsr (length rows) (length rows) (0 :: prefix_sums 0 (map (@length nat) rows))
-                            (concat rows) (repeat ONE_BITS (length (concat rows)))).
+  assemble_sched sched rows
+  = Ok (mkCsr (length rows) (length rows) (0 :: prefix_sums 0 (map (@length nat) rows))
+              (concat rows) (repeat ONE_BITS (length (concat rows)))).
 Proof.
-  intros Hr.
+  intros Hsched Hr.
   assert (Hsz : length (0 :: prefix_sums 0 (map (@length nat) rows)) - 1 = length rows)
     by (cbn [length]; rewrite prefix_sums_length, map_length; lia).
-  unfold assemble. rewrite Hsz.
+  unfold assemble_sched. rewrite Hsz.
   rewrite last_prefix_sums, Nat.add_0_l, <- length_concat.
-  pose proof (copy_rows_concat rows 0 [] eq_refl) as Hcp. cbn [app] in Hcp. rewrite Hcp. cbn [bind].
+  set (ts := copy_tasks 0 (prefix_sums 0 (map (@length nat) rows)) rows).
+  destruct (copy_tasks_ok rows 0 (length (concat rows)) ltac:(lia)) as (Hok & _ & Hdis). fold ts in Hok, Hdis.
+  rewrite (run_copies_perm ts (sched ts) _ (Hsched ts)) by (rewrite ?repeat_length; assumption).
+  pose proof (run_copies_concat rows 0 [] eq_refl) as Hcp. cbn [app] in Hcp. fold ts in Hcp.
+  rewrite Hcp. cbn [bind].
   assert (V : csmat_valid (length rows) (0 :: prefix_sums 0 (map (@length nat) rows)) (concat rows)
                           (repeat ONE_BITS (length (concat rows))) = true).
   { unfold csmat_valid. rewrite repeat_length, Nat.eqb_refl. cbn [length].
@@ -834,13 +958,13 @@ Definition spec_csr (dim : nat) (els : list (list nat)) : csr :=
   mkCsr (length els) (length els) (0 :: prefix_sums 0 (map (@length nat) rows))
         (concat rows) (repeat ONE_BITS (length (concat rows))).
 
-Theorem dual_sched_eq sched m dim :
-  (forall ws, Permutation ws (sched ws)) -> contract m dim ->
-  dual_sched sched m = Ok (spec_csr dim (spec_elements dim (m_topology m))).
+Theorem dual_sched_eq sched sched2 m dim :
+  (forall ws, Permutation ws (sched ws)) -> (forall ts, Permutation ts (sched2 ts)) -> contract m dim ->
+  dual_sched sched sched2 m = Ok (spec_csr dim (spec_elements dim (m_topology m))).
 Proof.
-  intros Hs [E H23 Hb Hr _]. unfold dual_sched. rewrite E.
+  intros Hs Hs2 [E H23 Hb Hr _]. unfold dual_sched. rewrite E.
   rewrite (dual_rows_sched_spec sched m dim Hs) by (auto; lia). cbn [bind].
-  rewrite assemble_spec by apply spec_rows_wf.
+  rewrite (assemble_sched_spec sched2 _ Hs2) by apply spec_rows_wf.
   unfold spec_csr. rewrite spec_rows_length. reflexivity.
 Qed.
 
@@ -849,14 +973,15 @@ Proof. apply Permutation_refl. Qed.
 
 Theorem dual_eq m dim : contract m dim ->
   dual m = Ok (spec_csr dim (spec_elements dim (m_topology m))).
-Proof. apply (dual_sched_eq (fun ws => ws)). intros ws. apply Permutation_refl. Qed.
+Proof. apply (dual_sched_eq (fun ws => ws) (fun ts => ts)); intros; apply Permutation_refl. Qed.
 
 (* whatever order rayon performs the row writes in, the matrix is the same *)
-Theorem dual_sched_indep sched m :
-  (forall ws, Permutation ws (sched ws)) -> wf_mesh m = true -> dual_sched sched m = dual m.
+Theorem dual_sched_indep sched sched2 m :
+  (forall ws, Permutation ws (sched ws)) -> (forall ts, Permutation ts (sched2 ts)) ->
+  wf_mesh m = true -> dual_sched sched sched2 m = dual m.
 Proof.
-  intros Hs Hwf. apply wf_mesh_contract in Hwf as (dim & Hc).
-  rewrite (dual_sched_eq sched m dim Hs Hc), (dual_eq m dim Hc). reflexivity.
+  intros Hs Hs2 Hwf. apply wf_mesh_contract in Hwf as (dim & Hc).
+  rewrite (dual_sched_eq sched sched2 m dim Hs Hs2 Hc), (dual_eq m dim Hc). reflexivity.
 Qed.
 
 (* no panic, no fuel exhaustion inside the contract *)
